@@ -502,8 +502,318 @@ def cases(rng, tier):
     return out
 
 
+# ----------------------------------------------------------------------------- direct predicate
+class Oracle:
+    """Implementation-independent bookkeeping of who is subscribed and what changed, and the weakest reading of C16
+    evaluated on the observations of one timeline.  Where the statement leaves a choice the predicate accepts every choice:
+      * the reference of the increment test may be the value last reported to this subscriber or to any subscriber of the object;
+      * writes within one round (no drain in between) may count as one change, as their net effect, or one by one;
+      * a change pending when the subscriber cancels / renews / expires in the same round may or may not be reported;
+      * a subscription whose lifetime ends exactly now may or may not still be served;
+      * status-flag and increment writes on analog objects may or may not be reported; pulse converters with a covPeriod may
+        additionally report once per period boundary;
+      * time remaining may be rounded either way (0 only for an indefinite subscription or less than a second left)."""
+
+    def __init__(self, cfg):
+        self.cfg = cfg
+        self.vals = {i: [c[3], c[4], c[5]] for i, c in enumerate(cfg)}
+        self.oi = {oid_of(c[0], c[1]): i for i, c in enumerate(cfg)}
+        self.live = {}
+        self.last_any = {}
+        self.now = 0
+        self.pending = {}
+        self.history = {}          # key -> 'cancelled' | 'expired'
+
+    def status(self, k, t=None):
+        """'live', 'maybe' (lifetime ends exactly now) or None"""
+        t = self.now if t is None else t
+        s = self.live.get(k)
+        if s is None:
+            return None
+        if s['expiry'] is None or s['expiry'] > t:
+            return 'live'
+        return 'maybe' if s['expiry'] == t else None
+
+    def note_write(self, ev, o):
+        _, oi, prop, v = ev
+        if o['ack'] != 0:
+            return
+        j = {'pv': 0, 'fl': 1, 'inc': 2}[prop]
+        self.pending.setdefault(oi, []).append((prop, self.vals[oi][j], v))
+        self.vals[oi][j] = v
+
+    def change_info(self, oi, start):
+        """(must, may, maxn) as functions of the subscriber's own last reported value"""
+        kind = self.cfg[oi][2]
+        ws = self.pending.get(oi, [])
+        pv0, fl0, inc0 = start
+        pvf, flf, incf = self.vals[oi]
+        changed = [w for w in ws if w[1] != w[2]]
+        if kind == KGEN:
+            must = (pvf != pv0) or (flf != fl0)
+            return (lambda last_to: must), (lambda last_to: bool(changed)), max(1, len(changed))
+        incs = [inc0] + [w[2] for w in ws if w[0] == 'inc']
+        inc_changed = any(w[0] == 'inc' and w[1] != w[2] for w in ws)
+        fl_changed = any(w[0] == 'fl' and w[1] != w[2] for w in ws)
+        pvw = [w[2] for w in ws if w[0] == 'pv']
+        seq = [pv0] + pvw
+        any_ref = self.last_any.get(oid_of(self.cfg[oi][0], self.cfg[oi][1]))
+
+        def refs(last_to):
+            return [r for r in (any_ref, last_to) if r is not None]
+
+        def must(last_to):
+            rs = refs(last_to)
+            return bool(rs) and bool(pvw) and (not inc_changed) and pvf != pv0 and all(abs(pvf - r) >= inc0 for r in rs)
+
+        def may(last_to):
+            if inc_changed or fl_changed:
+                return True
+            lo = min(incs)
+            for i, v in enumerate(pvw):
+                for r in refs(last_to) + seq[:i + 1]:
+                    if abs(v - r) >= lo:
+                        return True
+            return False
+        return must, may, max(1, len(pvw) + sum(1 for w in changed if w[0] != 'pv'))
+
+    def check(self, ev, o, start_vals):
+        """ev is a draining event, o its observation; returns failures"""
+        fails = []
+        k = ev[0]
+
+        def fail(kind, **kw):
+            d = {'kind': kind, 'event': list(ev), 'at_ticks': self.now}
+            d.update(kw)
+            fails.append(d)
+
+        if o['nerr']:
+            fail('exception-in-stack', errors=o['errors'][:3])
+        t_lo = self.now
+        t_hi = self.now + (ev[1] if k == 'A' else 0)
+        ekey = tuple(ev[1:4]) if k in ('S', 'X') else None
+        known = ekey is not None and ekey[2] in self.oi and self.cfg[self.oi[ekey[2]]][2] != KNOCOV
+        if k in ('S', 'X') and known and o['ack'] != 1:
+            fail('request-not-acknowledged', ack=o['ack'], code=o['code'])
+        new_sub = None
+        if k == 'S' and known and o['ack'] == 1:
+            life = ev[5] or 0
+            new_sub = {'conf': ev[4], 'life': life, 'expiry': (self.now + life * TICKS) if life else None, 'last_to': None}
+        before = {key: self.status(key) for key in self.live if self.status(key)}
+        allowed = dict(before)
+        if new_sub is not None:
+            allowed[ekey] = 'live'
+        # per notification
+        counts = {}
+        for n in o['notifs']:
+            key = n[:3]
+            counts[key] = counts.get(key, 0) + 1
+            if key not in allowed:
+                fail('notified-while-not-subscribed', notification=list(n), previously=self.history.get(key, 'never subscribed'))
+                continue
+            versions = []
+            if key in before:
+                versions.append(self.live[key])
+            if key == ekey and new_sub is not None:
+                versions.append(new_sub)
+            if n[3] not in [v['conf'] for v in versions]:
+                fail('wrong-notification-mode', notification=list(n), requested=[v['conf'] for v in versions])
+            ok_t = False
+            for v in versions:
+                if v['expiry'] is None:
+                    ok_t = ok_t or n[4] == 0
+                else:
+                    lo = max(0, (v['expiry'] - t_hi) // TICKS)
+                    hi = max(1, -((t_lo - v['expiry']) // TICKS))
+                    ok_t = ok_t or lo <= n[4] <= hi
+            if not ok_t:
+                fail('wrong-time-remaining', notification=list(n),
+                     expiry_ticks=[v['expiry'] for v in versions], window=[t_lo, t_hi])
+            oi = self.oi[key[2]]
+            if (n[5], n[6]) != (self.vals[oi][0], self.vals[oi][1]):
+                fail('stale-or-wrong-values', notification=list(n), current=self.vals[oi][:2])
+        # per subscriber
+        info = {}
+        for key, st in allowed.items():
+            oi = self.oi[key[2]]
+            if oi not in info:
+                info[oi] = self.change_info(oi, start_vals[oi])
+            must, may, maxn = info[oi]
+            c = counts.get(key, 0)
+            lo = hi = 0
+            if key in before:
+                last_to = self.live[key]['last_to']
+                hi = maxn if may(last_to) else 0
+                lo = 1 if must(last_to) else 0
+                exp = self.live[key]['expiry']
+                if st == 'maybe' or (key == ekey and k == 'X') or (exp is not None and exp <= t_hi):
+                    lo = 0
+                per = self.cfg[oi][6]
+                if k == 'A' and self.cfg[oi][2] == KPULSE and per:
+                    p8 = per * TICKS
+                    hi += (T0_TICKS + t_hi) // p8 - (T0_TICKS + t_lo) // p8
+            if key == ekey and new_sub is not None:
+                lo = max(lo, 1)
+                hi += 1
+            if c < lo:
+                fail('initial-notification-missing' if (key == ekey and new_sub is not None) else 'change-not-notified',
+                     subscriber=list(key), got=c, at_least=lo, writes=[list(w) for w in self.pending.get(oi, [])],
+                     last_reported_to_subscriber=self.live.get(key, {}).get('last_to'),
+                     last_reported_any=self.last_any.get(key[2]), increment=self.vals[oi][2])
+            if c > hi:
+                fail('notification-without-qualifying-change' if hi == 0 else 'too-many-notifications',
+                     subscriber=list(key), got=c, at_most=hi, writes=[list(w) for w in self.pending.get(oi, [])],
+                     last_reported_to_subscriber=self.live.get(key, {}).get('last_to'),
+                     last_reported_any=self.last_any.get(key[2]), increment=self.vals[oi][2])
+        # update
+        for n in o['notifs']:
+            key = n[:3]
+            self.last_any[key[2]] = self.vals[self.oi[key[2]]][0]
+            if key in self.live:
+                self.live[key]['last_to'] = self.vals[self.oi[key[2]]][0]
+        if new_sub is not None:
+            if counts.get(ekey):
+                new_sub['last_to'] = self.vals[self.oi[ekey[2]]][0]
+            self.live[ekey] = new_sub
+            self.history.pop(ekey, None)
+        if k == 'X' and known and o['ack'] == 1 and ekey in self.live:
+            del self.live[ekey]
+            self.history[ekey] = 'cancelled'
+        if k == 'A':
+            self.now += ev[1]
+        for key in [key for key in self.live if self.status(key) is None]:
+            del self.live[key]
+            self.history[key] = 'expired'
+        if k == 'R':
+            if o['active'] is None:
+                fail('active-list-unreadable', ack=o['ack'], code=o['code'])
+            else:
+                seen = {}
+                for a in o['active']:
+                    key = a[:3]
+                    seen[key] = seen.get(key, 0) + 1
+                    stt = self.status(key)
+                    if stt is None:
+                        fail('active-list-shows-dead-subscription', entry=list(a), previously=self.history.get(key, 'never subscribed'))
+                        continue
+                    v = self.live[key]
+                    if a[3] != v['conf']:
+                        fail('active-list-wrong-mode', entry=list(a), requested=v['conf'])
+                    if v['expiry'] is None:
+                        okt = a[4] == 0
+                    else:
+                        okt = max(0, (v['expiry'] - self.now) // TICKS) <= a[4] <= max(1, -((self.now - v['expiry']) // TICKS))
+                    if not okt:
+                        fail('active-list-wrong-time-remaining', entry=list(a), expiry_ticks=v['expiry'])
+                for key, c in seen.items():
+                    if c > 1:
+                        fail('active-list-duplicate', subscriber=list(key), times=c)
+                for key in self.live:
+                    if self.status(key) == 'live' and key not in seen:
+                        fail('active-list-misses-live-subscription', subscriber=list(key), listed=[list(a) for a in o['active']])
+        self.pending = {}
+        return fails
+
+
+T0_TICKS = int(T0) * TICKS
+
+
+def judge(cfg, events, obs=None):
+    """evaluate the C16 predicate on one timeline; returns (failures, stats)"""
+    if obs is None:
+        obs = run_impl(cfg, events)
+    orc = Oracle(cfg)
+    fails = []
+    start = {i: list(v) for i, v in orc.vals.items()}
+    nchange = 0
+    for ev, o in zip(events, obs):
+        if ev[0] == 'W':
+            orc.note_write(ev, o)
+            if o['notifs'] or o['nerr']:
+                fails.append({'kind': 'notification-before-drain', 'event': list(ev)})
+            continue
+        fails += orc.check(ev, o, start)
+        nchange += len(o['notifs'])
+        start = {i: list(v) for i, v in orc.vals.items()}
+    for f in fails:
+        f['cfg'] = [list(c) for c in cfg]
+        f['events'] = [list(e) for e in events]
+    return fails, nchange
+
+
+def shrink(cfg, events, kind, budget=150):
+    """greedy removal of events while a failure of the same kind remains"""
+    cur = list(events)
+    i = 0
+    while i < len(cur) and budget > 0:
+        cand = cur[:i] + cur[i + 1:]
+        budget -= 1
+        try:
+            fs, _ = judge(cfg, cand)
+        except Exception:
+            fs = []
+        if any(f['kind'] == kind for f in fs):
+            cur = cand
+        else:
+            i += 1
+    return cur
+
+
 def direct(rng, tier, focus=()):
-    return [], {'evaluations': 0, 'distinct_nontrivial': 0}
+    failures, n, nontriv = [], 0, 0
+    samples = []
+    hist = {}
+
+    def one(cfg, events, tag):
+        nonlocal n, nontriv
+        n += 1
+        fs, nchange = judge(cfg, events)
+        if nchange:
+            nontriv += 1
+        hist[tag] = hist.get(tag, 0) + 1
+        if fs:
+            kinds = []
+            for f in fs:
+                if f['kind'] not in kinds:
+                    kinds.append(f['kind'])
+            for kd in kinds[:3]:
+                if len(failures) >= 60:
+                    break
+                if sum(1 for f in failures if f['kind'] == kd) < 2:       # minimise the first two of each kind only
+                    small = shrink(cfg, events, kd)
+                    f2 = [f for f in judge(cfg, small)[0] if f['kind'] == kd]
+                    failures.append(f2[0] if f2 else [f for f in fs if f['kind'] == kd][0])
+                else:
+                    failures.append([f for f in fs if f['kind'] == kd][0])
+        return fs
+
+    for cfg, events in fixed_timelines():
+        one(cfg, events, 'fixed')
+    samples.append({'direct': 'timeline judged by the oracle', 'events': [list(e) for e in fixed_timelines()[3][1]]})
+    for d in focus:
+        if isinstance(d, dict) and 'events' in d:
+            cfg = [tuple(c) for c in d['cfg']]
+            evs = [tuple(e) for e in d['events']]
+            one(cfg, evs, 'focus')
+            for _ in range(10):
+                cut = [e for e in evs if rng.random() < 0.8]
+                one(cfg, cut, 'focus')
+    total = 30000 if tier == 'thorough' else 3000
+    for k in range(total):
+        r = rng.random()
+        if r < 0.25:
+            cfg = gen_cfg(rng, period=rng.choice([1, 2, 3, 7]))
+            one(cfg, gen_timeline(rng, cfg, focus_obj=4), 'pulse')
+        elif r < 0.55:
+            cfg = gen_cfg(rng)
+            one(cfg, gen_timeline(rng, cfg, focus_obj=rng.choice([0, 1])), 'analog')
+        elif r < 0.7:
+            cfg = gen_cfg(rng)
+            one(cfg, gen_timeline(rng, cfg, focus_obj=rng.choice([2, 3])), 'generic')
+        else:
+            cfg = gen_cfg(rng)
+            one(cfg, gen_timeline(rng, cfg, nmin=15, nmax=40), 'mixed')
+    return failures, {'evaluations': n, 'distinct_nontrivial': nontriv, 'exhaustive': False, 'timelines': hist, 'samples': samples}
 
 
 def classify(failure):
@@ -511,4 +821,24 @@ def classify(failure):
 
 
 def replay(payload):
-    print(payload)
+    import json
+    import core
+    f = payload.get('failure')
+    if f is None:
+        mc = [b.get('minimal_case') for b in payload.get('broken', []) if isinstance(b, dict) and b.get('minimal_case')]
+        f = mc[0]['desc'] if mc else None
+    if not f:
+        print('nothing to replay:', payload.get('broken'))
+        return
+    cfg = [tuple(c) for c in f['cfg']]
+    events = [tuple(e) for e in f['events']]
+    obs = run_impl(cfg, events)
+    print('configuration:', cfg)
+    for e, o in zip(events, obs):
+        print(' ', e, '-> ack', o['ack'], o['code'], 'notifications', o['notifs'], 'active', o['active'], o['errors'] or '')
+    fs, _ = judge(cfg, events, obs)
+    for x in fs:
+        print('PREDICATE FAILS:', json.dumps({k: v for k, v in x.items() if k not in ('cfg', 'events')}))
+    got, err = core.coq_eval(COQ_IMPORTS, 'run_canon %s %s' % (coq_cfg(cfg), coq_events(events)))
+    print('implementation (canonical):', canon_obs(obs))
+    print('model          (canonical):', got if got is not None else err)
